@@ -25,6 +25,9 @@ pub struct Agg {
     pub faults: BTreeMap<String, u64>,
     pub hashes: Vec<u64>,
     pub cut_short: BTreeMap<String, u64>,
+    /// for each of those, one seed (and flavour) that shows it: `simcheck show <property> <seed>`
+    #[serde(default)]
+    pub cut_short_example: BTreeMap<String, String>,
     /// runs with a violation of the property under check, per oracle rule and build flavour
     pub viol_runs: BTreeMap<String, u64>,
     pub samples: Vec<serde_json::Value>,
@@ -200,6 +203,7 @@ pub fn worker(args: &[String]) {
                 }
             } else if seen.insert(v.property) {
                 *agg.cut_short.entry(format!("{} {}", v.property, v.rule)).or_insert(0) += 1;
+                agg.cut_short_example.entry(format!("{} {}", v.property, v.rule)).or_insert_with(|| format!("seed {} ({})", seed, flavour));
             }
         }
     };
@@ -304,6 +308,9 @@ fn merge(a: &mut Agg, b: Agg) {
     }
     for (k, v) in b.faults {
         *a.faults.entry(k).or_insert(0) += v;
+    }
+    for (k, v) in b.cut_short_example {
+        a.cut_short_example.entry(k).or_insert(v);
     }
     for (k, v) in b.cut_short {
         *a.cut_short.entry(k).or_insert(0) += v;
@@ -712,6 +719,11 @@ pub fn check(prop: &str, tier: &str) -> i32 {
         known_hits.len(),
         agg.cut_short
     );
+    for (k, v) in agg.cut_short_example.iter() {
+        if !k.contains("ran-outside-cones-transient") {
+            println!("  other property: {} e.g. {}", k, v);
+        }
+    }
     if harness_errors > 0 {
         eprintln!("HARNESS ERROR: {harness_errors} harness-level problems (nondeterminism or dead run threads)");
         return 2;
@@ -759,6 +771,7 @@ fn write_evidence(prop: &str, tier: &str, batch: u64, sp: &spec::Spec, agg: &Agg
             "reach_probes_stuck_at_zero": zero_probes,
             "distinct_measure": "FNV hash of the sequence of recomputed node kinds per round over the whole run (recompute-order shape), counted over runs that met the non-trivial rule",
             "cut_short_by_other_properties": agg.cut_short,
+            "cut_short_examples": agg.cut_short_example,
             "violating_runs_by_rule": agg.viol_runs,
             "determinism_recheck": { "runs_repeated_in_another_process": rechecked, "mismatches": mismatches },
             "known_findings_seen": known_hits,
